@@ -40,7 +40,7 @@ DEFAULT_PROFILE = {
     "p_narrow_box": 0.0,
     "maxfev_hi": 90,
     "obj_fams": [(4, "quad"), (1.5, "cubic"), (1.5, "rosen"), (1.5, "abs"), (1, "maxaff"), (1, "linear"), (0.5, "const")],
-    "con_fams": [(3, "ball"), (2, "ellipsoid"), (2, "affine"), (1, "product"), (1, "sine")],
+    "con_fams": [(3, "ball"), (2, "ellipsoid"), (2, "affine"), (1, "product"), (1, "sine"), (0.6, "step")],
 }
 
 
@@ -99,6 +99,8 @@ def gen_family(rng, fam, n, scale=1.0):
         return {"fam": "linear", "g": [rng.nice(-2, 2) for _ in range(n)], "k": rng.nice(-1, 1)}
     if fam == "const":
         return {"fam": "const", "k": rng.pick([0.0, 1.0, -3.5])}
+    if fam == "step":
+        return {"fam": "step", "g": [rng.pick([-2.0, -1.0, 1.0, 1.0, 2.0, 3.0]) for _ in range(n)], "k": float(rng.randint(-2, 2))}
     if fam == "ball":
         return {"fam": "ball", "c": [rng.nice(-1, 1) for _ in range(n)], "r": rng.pick([0.5, 1.0, 1.5, 2.0])}
     if fam == "ellipsoid":
@@ -278,6 +280,8 @@ def gen_nonlinear(rng, n, prof, twin_of=None):
     if rng.chance(0.15):
         spec["lb"], spec["ub"] = lb[0], ub[0]
     spec["ret"] = rng.pick(["ndarray", "list", "tuple"] + (["scalar"] if m == 1 else []))
+    if all(cs["fam"] == "step" for cs in comps) and not any(cs.get("noise") for cs in comps):
+        spec["ret"] = rng.pick(["intlist", "intarray", "intscalar" if m == 1 else "intlist", "bool", "ndarray"])
     return spec
 
 
